@@ -263,4 +263,73 @@ Section NesterovLoop.
              (tolerance upper_bound inflation : F) (trace : list (V3 F * V3 F)) : list (V3 F) * run_result :=
     replay (max_interations + 3) normalize max_interations tolerance (upper_bound + inflation) inflation trace
            (nstate0 use_acc) [].
+  (** ** the same loop driven by a support mapping instead of a recorded trace
+      (run_gjk_nesterov_accelerated of _gjk_nesterov_accelerated_primitives.py 156-241: textually the
+      same loop without the normalisation branch; its support pair comes from the type-coded
+      support functions below) *)
+  Fixpoint run_with (fuel : nat) (normalize : bool) (max_interations : nat) (tolerance upper_bound inflation : F)
+           (sup : V3 F -> V3 F * V3 F) (s : nstate) (evals : nat) : run_result * nat :=
+    match fuel with
+    | 0%nat => (NErr, evals)
+    | S f =>
+      if (it s <? max_interations)%nat then
+        if ray_len s <? tolerance then (NAns true (- inflation) (it s), evals)
+        else
+          let '(s0, s1) := sup (vneg (next_dir normalize s)) in
+          match pass normalize tolerance upper_bound inflation s s0 s1 with
+          | PDone inside distance => (NAns inside distance (it s), S evals)
+          | PErr => (NErr, S evals)
+          | PNext s' => run_with f normalize max_interations tolerance upper_bound inflation sup s' (S evals)
+          end
+      else
+        let distance := ray_len s - inflation in
+        (NAns (distance <? tolerance) distance (it s), evals)
+    end.
+
+  (** _gjk_nesterov_accelerated_primitives.py 543-640: type codes 0 sphere, 1 capsule, 2 box,
+      3 ellipsoid, 4 cylinder; [data] as built by get_data_from_collider *)
+  Definition prim_capsule_support (dir data : V3 F) : V3 F :=
+    if zero <? vz dir then V zero zero (vx data) else V zero zero (- vx data).
+  Definition prim_box_support (dir data : V3 F) : V3 F :=
+    let inflate := if (vx dir =? zero) || (vy dir =? zero) || (vz dir =? zero)
+                   then cst (1125899918101623 # 1125899906842624) (* 1.00000001 *) else one in
+    let c (d s : F) := if zero <? d then inflate * s else - inflate * s in
+    V (c (vx dir) (vx data)) (c (vy dir) (vy data)) (c (vz dir) (vz data)).
+  Definition prim_ellipsoid_support (dir data : V3 F) : V3 F :=
+    let v := vmul data dir in
+    let d := sqrt (dot v dir) in
+    vdivs v d.
+  Definition prim_cylinder_support (dir data : V3 F) : V3 F :=
+    let inflate := cst (2251822331683385 # 2251799813685248) (* 1.00001 *) in
+    let axis_dir := (vx dir =? zero) && (vy dir =? zero) in
+    let h := if axis_dir then vx data * inflate else vx data in
+    let r := vy data in
+    let '(sz, r) := if zero <? vz dir then (h, r) else if vz dir <? zero then (- h, r) else (zero, r * inflate) in
+    if axis_dir then V zero zero sz
+    else
+      let n2 := sqrt (vx dir * vx dir + vy dir * vy dir) in       (* np.linalg.norm(dir[:2]) *)
+      V (vx dir / n2 * r) (vy dir / n2 * r) sz.
+
+  Definition prim_select_support (ty : nat) (dir data : V3 F) : option (V3 F) :=
+    match ty with
+    | 0%nat => Some (V zero zero zero)
+    | 1%nat => Some (prim_capsule_support dir data)
+    | 2%nat => Some (prim_box_support dir data)
+    | 3%nat => Some (prim_ellipsoid_support dir data)
+    | 4%nat => Some (prim_cylinder_support dir data)
+    | _ => None                                                  (* assert type == 4 *)
+    end.
+
+  (** support_function(dir, minkowski_diff) with minkowski_diff = (type0, data0, type1, data1, oR1, ot1) *)
+  Definition prim_support_pair (ty0 : nat) (data0 : V3 F) (ty1 : nat) (data1 : V3 F) (oR1 : M3 F) (ot1 : V3 F)
+             (dir : V3 F) : V3 F * V3 F :=
+    let s0 := match prim_select_support ty0 dir data0 with Some x => x | None => V zero zero zero end in
+    let d1 := vneg (mulTV oR1 dir) in                              (* np.dot(-oR1.T, dir) *)
+    let s1 := match prim_select_support ty1 d1 data1 with Some x => x | None => V zero zero zero end in
+    (s0, vadd (mulMV oR1 s1) ot1).
+
+  Definition nesterov_prim_run (use_acc : bool) (max_interations : nat) (tolerance upper_bound inflation : F)
+             (ty0 : nat) (data0 : V3 F) (ty1 : nat) (data1 : V3 F) (oR1 : M3 F) (ot1 : V3 F) : run_result * nat :=
+    run_with (max_interations + 3) false max_interations tolerance (upper_bound + inflation) inflation
+             (prim_support_pair ty0 data0 ty1 data1 oR1 ot1) (nstate0 use_acc) 0.
 End NesterovLoop.
